@@ -84,7 +84,11 @@ def opp_of(x):
 
 def r11_2(cx):
     n = 0
+    HOSTS = {'util::prefilter::RareBytesBuilder::add_rare_byte': 'util::prefilter::RareBytesBuilder::add',
+             'util::prefilter::RareBytesBuilder::set_offset': 'util::prefilter::RareBytesBuilder::add'}
     for path, pat, flag, what in SITES:
+        if not cx.has(path) and path in HOSTS:
+            path = HOSTS[path]      # the one-line helper was merged into its caller: the pair is looked for there
         b = cx.body(path)
         calls = [(bi, b.call_term(bi, t)) for bi, t in b.calls(pat)]
         # expand shadowing `let b = opposite_ascii_case(b)`
